@@ -25,6 +25,7 @@ def gen_case(seed, promote=False):
     nclients = r.randint(1, 3)
     connected = set()
     followers = []
+    lastval = {}
     def val(): return r.choice([1, 2, "s", {"k": [1]}, True, [1, "x"]])      # no null: neither the REST export nor the REST get can show a stored null (F8)
     def client_op():
         c = r.choice(sorted(connected)) if connected else None
@@ -35,7 +36,12 @@ def gen_case(seed, promote=False):
                 i = r.choice(cands); connected.add(i); return f"conn {i}"
             c = r.choice(sorted(connected))
         if x < 0.40: return f"set {c} {xs(r.choice(KEYS))} {js(val())}"
-        if x < 0.55: return f"cset {c} {xs(r.choice(KEYS + [f'w/{c}', f'lw{c}/x', f'w/{c}']))} {js(val())} {r.choice([0, 0, 0, 1, 1, 2])}"      # also last-will keys: the will overrides CAS protection
+        if x < 0.55:
+            k = r.choice(KEYS + [f'w/{c}', f'lw{c}/x', f'w/{c}'])
+            # (half of the csets carry the value last written to that key: a renewal bumps the version without changing the value)
+            vv = lastval.get(k, val()) if r.random() < 0.5 else val()
+            lastval[k] = vv
+            return f"cset {c} {xs(k)} {js(vv)} {r.choice([0, 0, 0, 1, 1, 2])}"      # also last-will keys: the will overrides CAS protection
         if x < 0.63: return f"del {c} {xs(r.choice(KEYS))}"
         if x < 0.70: return f"pdel {c} {xs(r.choice(PATS))}"
         if x < 0.80: return f"set {c} {xs(gg(c))} {js([r.choice(PATS) for _ in range(r.randint(0, 2))])}"
@@ -109,6 +115,12 @@ def run(v, tier, seed, prop=ID, promote=False, oracle=None):
                                           f"set 1 {xs(lw(1))} {js([{'key': 'w/1', 'value': 'bye'}, {'key': 'lw1/x', 'value': 'gone'}, {'key': 'plain/k', 'value': 1}])}",
                                           f"set 1 {xs(gg(1))} {js(['g/#'])}", f"set 2 {xs('g/x')} {js(1)}", "sync", "dump leader", "dump 1", "disc 1", "sync", "dump leader", "dump 1"]
                   + (["promote 1", "dump leader"] if promote else [])))
+    # writes that leave the value as it is are still writes: an accepted cset bumps the version, a cset turns a plain entry into a
+    # CAS entry, a set turns a CAS entry back (refused) -- each must reach the follower
+    cases.append(("same-value-writes", ["leader", "conn 1", "join 1", f"cset 1 {xs('lease')} {js('n1')} 0", f"cset 1 {xs('lease')} {js('n1')} 1", f"cset 1 {xs('lease')} {js('n1')} 2",
+                                         f"set 1 {xs('p')} {js(5)}", f"cset 1 {xs('p')} {js(5)} 0", f"set 1 {xs('q')} {js(1)}", f"set 1 {xs('q')} {js(1)}",
+                                         "sync", "dump leader", "dump 1", f"cset 1 {xs('lease')} {js('n2')} 3", f"cset 1 {xs('p')} {js(6)} 1", f"cset 1 {xs('lease')} {js('n2')} 1",
+                                         "sync", "dump leader", "dump 1"] + (["promote 1", "dump leader"] if promote else [])))
     if not promote:
         cases.append(("F10b-cas-import", ["leader", "conn 1", "join 1", "import " + xs(json.dumps({"data": {"t": {"k": {"v": {"Cas": [1, 7]}}, "p": {"v": 2}}}})), "sync", "dump leader", "dump 1"]))
         cases.append(("F25-bad-import", ["leader", "conn 1", "join 1", "import " + xs(json.dumps({"t": {"k": {"v": 1}}})), "import " + xs("not json"), f"set 1 {xs('a')} {js(1)}", "sync", "dump leader", "dump 1"]))
